@@ -41,6 +41,14 @@ theorem lex_ordered (src : List Char) :
   obtain ⟨h1, h2⟩ := run_bounds (lex_run upper src)
   exact ⟨h2, fun t ht => (h1 t ht).2⟩
 
+/-- **the ghost extent is the lexeme's length**: what a token consumed is determined by the text
+    at its offset and its value (`specExtent`: a quoted literal up to its closing quote or the end of
+    the text, `;` + value for a comment, the value otherwise) — this is how the oracle recomputes
+    the extents of the implementation's tokens, which do not store them. -/
+theorem lex_extent_spec (src : List Char) :
+    ∀ t ∈ (lex upper src).1, t.extent = specExtent (src.drop t.off) t.value :=
+  run_extent (lex_run upper src)
+
 /-- offsets are strictly increasing -/
 theorem lex_offsets_increasing (src : List Char) :
     (lex upper src).1.Pairwise (fun a b => a.off < b.off) := by
